@@ -5,6 +5,7 @@
 -/
 import Avra.Model.Build
 import Avra.Model.Hex
+import Avra.Model.Cli
 import Avra.Spec.HexReader
 import Avra.Spec.All
 open Avra Avra.Model
@@ -80,6 +81,16 @@ def step (st : DState) (line : String) : DState × Option String :=
   | [id, "F", main, dirs] =>
     let ds := if dirs == "-" then [] else (dirs.splitOn ",").map unhexStr
     (st, some s!"{id} {canonOut (buildFile st.fs (unhexStr main) ds)}")
+  | [id, "C", src, o, e, inc] =>
+    let opt (h : String) : Option Str := if h == "-" then none else some (unhexStr h)
+    let r := Cli.run st.fs (unhexStr inc) { source := unhexStr src, output := opt o, eeprom := opt e }
+    let out := match r with
+      | .ok c => s!"EXIT {c.exit} FAIL {c.failures} WRITES " ++
+          (if c.writes.isEmpty then "-" else ";".intercalate (c.writes.map fun (p, t) => hexOfStr p ++ ":" ++ hexOfStr t))
+      | .error _ => "ERR"
+      | .panic _ => "PANIC"
+      | .oof => "OOF"
+    (st, some s!"{id} {out}")
   | id :: "S" :: srcs =>
     (st, some (id ++ " " ++ " || ".intercalate (srcs.map fun h => canonOut (buildStr st.fs (unhexStr h)))))
   | id :: kind :: rest =>
